@@ -181,6 +181,11 @@ theorem C09_work_v4 (b : Bytes) (p : Pkt4) (h : dec4 b = .ok p) : work4 p b ≤ 
   have := C09_size_v4 b p h
   simp only [work4, c1, c2]; omega
 
+/-- The fine-grained measure `nest6` the `cost` stream fits against real
+allocation is computed in one pass; the lengths it sums are those of the model
+encoder (so it is "bytes written by ToBytes, every level's buffer counted"). -/
+theorem C09_nest_lengths (m : Msg6) : (lenNest6 m).1 = (encMsg m).length := lenNest6_fst m
+
 /-! ### non-vacuity -/
 
 /-- IA_NA{IAAddr{}} in a Solicit: decodes, three levels of option lists. -/
